@@ -21,6 +21,10 @@ type tnode struct {
 	Root    cid.Cid
 	Size    uint64
 	Entity  []cid.Cid // blocks that make up this entity: file = every block; directory = root + child shards
+	// Hand, when set, is a hand-assembled file DAG (empty chunks, old-style nodes without BlockSizes) stored as is
+	Hand *mnode
+	// Unsorted plain directories are stored as a hand-encoded block whose links are NOT in name order
+	Unsorted bool
 }
 
 var treeNamePool = []string{"a", "b", "c d", "é", "00", "A1x", ".", "..", "x.txt", "漢字", "%41", "0A", "FF", "n1", "n2", "n3", "n4", "\xff\xfe", "a\nb", " "}
@@ -59,28 +63,46 @@ func genTreeNames(t *rapid.T, max int) []string {
 }
 
 // genTree draws a tree whose root is almost always a directory.
+type treeOpts struct {
+	Hand     bool // hand-assembled file DAGs (empty chunks) among the files
+	OldStyle bool // ... which may also omit BlockSizes / FileSize (only for checks about bytes, not fetch order)
+	Unsorted bool // plain directories stored as hand-encoded blocks with links out of name order
+}
+
 func genTree(t *rapid.T, depth, maxKids int) *tnode {
+	return genTreeOpt(t, depth, maxKids, treeOpts{Hand: true, Unsorted: true})
+}
+
+// genBuilderTree draws trees written exclusively by the builders under test.
+func genBuilderTree(t *rapid.T, depth, maxKids int) *tnode { return genTreeOpt(t, depth, maxKids, treeOpts{}) }
+
+func genTreeOpt(t *rapid.T, depth, maxKids int, o treeOpts) *tnode {
 	if rapid.IntRange(0, 9).Draw(t, "rootisfile") == 0 {
-		return genSubTree(t, 0, maxKids)
+		return genSubTree(t, 0, maxKids, o)
 	}
-	return genSubTree(t, -depth, maxKids)
+	return genSubTree(t, -depth, maxKids, o)
 }
 
 // genSubTree: depth > 0 may be a file or a directory; depth == 0 is a file; depth < 0 forces a directory of depth -depth.
-func genSubTree(t *rapid.T, depth, maxKids int) *tnode {
+func genSubTree(t *rapid.T, depth, maxKids int, o treeOpts) *tnode {
 	force := depth < 0
 	if force {
 		depth = -depth
 	}
 	if depth == 0 || (!force && rapid.IntRange(0, 2).Draw(t, "isfile") == 0) {
+		if o.Hand && rapid.IntRange(0, 5).Draw(t, "handfile") == 0 {
+			m, data, _, _ := genHandFile(t, o.OldStyle)
+			return &tnode{Data: data, Hand: m}
+		}
 		n := rapid.SampledFrom([]int{0, 1, 5, 12, 13, 30, 46, 60, 140}).Draw(t, "flen")
 		return &tnode{Data: lcgBytes(n, rapid.Byte().Draw(t, "tag"), 0)}
 	}
 	nd := &tnode{Dir: true, Kids: map[string]*tnode{}}
 	nd.Sharded = rapid.Bool().Draw(t, "sharded")
+	nd.Unsorted = o.Unsorted && !nd.Sharded && rapid.IntRange(0, 3).Draw(t, "unsorted") == 0
 	nd.Fanout = rapid.SampledFrom([]int{8, 8, 16, 256}).Draw(t, "fanout")
 	for _, name := range genTreeNames(t, maxKids) {
-		nd.Kids[name] = genSubTree(t, depth-1, maxKids)
+		nd.Kids[name] = genSubTree(t, depth-1, maxKids, o)
 	}
 	return nd
 }
@@ -89,7 +111,14 @@ func genSubTree(t *rapid.T, depth, maxKids int) *tnode {
 func (n *tnode) build(st *Store) error {
 	var err error
 	if !n.Dir {
-		n.Root, n.Size, err = buildFile(st, n.Data, "size-5", 3)
+		if n.Hand != nil {
+			n.Root, err = n.Hand.store(st, st.LinkSystem())
+			if err == nil {
+				n.Size, err = st.CumulativeSize(n.Root, nil)
+			}
+		} else {
+			n.Root, n.Size, err = buildFile(st, n.Data, "size-5", 3)
+		}
 		if err != nil {
 			return err
 		}
@@ -123,6 +152,23 @@ func (n *tnode) build(st *Store) error {
 			return err
 		}
 		n.Entity = tr.AllShards()
+	} else if n.Unsorted && len(es) >= 2 {
+		// hand-encoded directory block with the links in descending name order
+		var links []LinkInfo
+		total := uint64(0)
+		for i := len(es) - 1; i >= 0; i-- {
+			e := es[i]
+			links = append(links, LinkInfo{Name: strp(e.Name), Tsize: u64p(e.Tsize), Cid: e.Cid})
+			total += e.Tsize
+		}
+		raw := encodePBRaw(links, []byte{0x08, 0x01}, true)
+		c, serr := pbProto.Prefix.Sum(raw)
+		if serr != nil {
+			return serr
+		}
+		st.Put(c, raw)
+		n.Root, n.Size = c, total+uint64(len(raw))
+		n.Entity = []cid.Cid{n.Root}
 	} else {
 		n.Root, n.Size, err = buildDir(st, es)
 		n.Entity = []cid.Cid{n.Root}
